@@ -149,6 +149,9 @@ func (fs *Filespace) Remove(path string) (err error) {
 	if path, err = varutil.ReduceAbsPath(path); err != nil {
 		return err
 	}
+	if path == "" {
+		return goaterr.Errorf("Remove: the filespace root can not be removed")
+	}
 	return os.Remove(fs.path + path)
 }
 
@@ -156,6 +159,9 @@ func (fs *Filespace) Remove(path string) (err error) {
 func (fs *Filespace) RemoveAll(path string) (err error) {
 	if path, err = varutil.ReduceAbsPath(path); err != nil {
 		return err
+	}
+	if path == "" {
+		return goaterr.Errorf("RemoveAll: the filespace root can not be removed")
 	}
 	return os.RemoveAll(fs.path + path)
 }
